@@ -20,11 +20,11 @@
 (* internal.  TracePeer.tla replays recorded event sequences through these *)
 (* actions; MCPeer.tla explores all interleavings.                         *)
 (*                                                                         *)
-(* Fix* constants switch individual repairs on.  The current tree is       *)
-(* FixStall = TRUE (stallHandler repaired in btcd by "fix: peer: stall     *)
-(* handler waits for both the input and the output handler"), FixEarly =   *)
-(* FixLatePut = FALSE (recorded, unrepaired defects).  With FixStall =     *)
-(* FALSE the specification describes the stall handler before the repair.  *)
+(* Fix* constants switch individual repairs on.  The current tree has all  *)
+(* three (btcd 7c169cbd stall handler, c5164f45 start() drains on abort,   *)
+(* e9426a69 QueueMessage selects on quit and drains behind queueHandler);  *)
+(* with a constant FALSE the specification describes the code before that  *)
+(* repair.                                                                 *)
 (***************************************************************************)
 EXTENDS Naturals, Sequences, FiniteSets
 
@@ -57,7 +57,10 @@ Min(a, b) == IF a < b THEN a ELSE b
      invs   sequence over {"tx","block"} queued through QueueInventory
      disc   a Disconnect() call happens at some point
      net    "main" | "test3" | "nil" (no ChainParams: testnet3) | "regtest" | "sim"
-     loop   the remote's address is 127.0.0.1 (else a routable address)     *)
+     loop   the remote's address is 127.0.0.1 (else a routable address)
+     sib    the nonce of a "self" version is the one a sibling outbound peer of
+            the same process is writing in its own version message right now
+            (a node that dials itself); otherwise one sent earlier           *)
 
 RMsg(k, pv, self) == [k |-> k, pv |-> pv, self |-> self]
 
@@ -81,7 +84,7 @@ histV  == <<doneCnt, safe, putSeq, wireSeq, rjDone, shEarly, latePut, cbBad>>
 vars   == <<scn, pc, connV, flagV, hsV, chanV, locV, histV>>
 
 PeerProcs == {"st", "ng", "ih", "sh", "qh", "oh", "ph"}
-Procs     == PeerProcs \cup {"rm", "dc", "iv"} \cup Senders
+Procs     == PeerProcs \cup {"rm", "dc", "iv", "sb"} \cup Senders
 
 Item(k, id) == [k |-> k, id |-> id]      \* element of the output queues / the wire
 NoItem      == Item("none", 0)
@@ -111,6 +114,7 @@ InitRec(sc0) ==
                 [] p = "ng" -> IF sc0.dir = "in" THEN "rver" ELSE "wver"
                 [] p \in {"ih", "sh", "qh", "oh", "ph"} -> "off"
                 [] p = "rm" -> "run"
+                [] p = "sb" -> IF sc0.sib THEN "gen" ELSE "done"
                 [] p = "dc" -> IF sc0.disc THEN "idle" ELSE "done"
                 [] p = "iv" -> IF Len(sc0.invs) > 0 THEN "idle" ELSE "done"
                 [] OTHER    -> IF Len(sc0.plan[p]) > 0 THEN "idle" ELSE "done"],
@@ -182,8 +186,29 @@ DiscQuit(p) ==
 ---------------------------------------------------------------------------
 (* remote side *)
 
+(* The sibling outbound peer (process "sb") writing its version message:
+   localVersionMsg records the nonce in sentNonces BEFORE writeMessage puts it
+   on the wire; the write returns later still.  The remote can echo the nonce
+   as soon as it is on the wire.                                             *)
+SbRecord ==               \* sentNonces.Add(nonce)
+  /\ pc["sb"] = "gen"
+  /\ Goto("sb", "wr")
+  /\ UNCHANGED <<scn, connV, flagV, hsV, chanV, locV, histV>>
+SbWrite ==                \* observable sibwire: the nonce is on the wire, the write call has not returned
+  /\ pc["sb"] = "wr"
+  /\ Goto("sb", "fly")
+  /\ UNCHANGED <<scn, connV, flagV, hsV, chanV, locV, histV>>
+SbRet ==                  \* the write call returns
+  /\ pc["sb"] = "fly"
+  /\ Goto("sb", "done")
+  /\ UNCHANGED <<scn, connV, flagV, hsV, chanV, locV, histV>>
+SibOnWire == pc["sb"] \in {"fly", "done"}
+\* is the nonce of a self version in sentNonces when readRemoteVersionMsg looks?
+SelfKnown == ~scn.sib \/ pc["sb"] \in {"wr", "fly", "done"}
+
 RmFeed ==                 \* observable: next script message put on the conn
   /\ pc["rm"] = "run" /\ fed < Len(scn.script) /\ ~remoteClosed
+  /\ (scn.sib /\ scn.script[fed + 1].self) => SibOnWire
   /\ fed' = fed + 1
   /\ UNCHANGED <<scn, pc, rdn, remoteClosed, connClosed, flagV, hsV, chanV, locV, histV>>
 
@@ -276,7 +301,7 @@ NgReadFail ==
 \* readRemoteVersionMsg after the read
 NgPverErr ==              \* undecodable / unknown / self connection: fail silently
   /\ pc["ng"] = "pver"
-  /\ IsReadErr(CurMsg("ng")) \/ (CurMsg("ng").k = "ver" /\ CurMsg("ng").self)
+  /\ IsReadErr(CurMsg("ng")) \/ (CurMsg("ng").k = "ver" /\ CurMsg("ng").self /\ SelfKnown)
   /\ NgFail
   /\ UNCHANGED <<scn, connV, flagV, versionKnown, verAck, nego, started, chanV, locV, histV>>
 NgPverNotVer ==           \* first message is not version: reject, fail
@@ -286,7 +311,7 @@ NgPverNotVer ==           \* first message is not version: reject, fail
   /\ UNCHANGED <<scn, connV, flagV, hsV, chanV, locV, histV>>
 NgPverVer ==              \* observable cb(version): flags set, OnVersion invoked
   /\ pc["ng"] = "pver"
-  /\ CurMsg("ng").k = "ver" /\ ~CurMsg("ng").self
+  /\ CurMsg("ng").k = "ver" /\ ~(CurMsg("ng").self /\ SelfKnown)
   /\ versionKnown' = TRUE
   /\ nego' = Min(nego, CurMsg("ng").pv)
   /\ Goto("ng", IF CurMsg("ng").pv < MinAcceptablePV THEN "wrj" ELSE AfterRver)
@@ -707,12 +732,12 @@ AppInternal == (\E s \in Senders : SndChk(s) \/ SndPut(s) \/ SndAfter(s)) \/ IvC
 
 ---------------------------------------------------------------------------
 
-Internal == NgInternal \/ StOk \/ StErr \/ StQuit \/ StTimeout \/ StWaitQuit \/ StDrain
+Internal == SbRecord \/ SbRet \/ NgInternal \/ StOk \/ StErr \/ StQuit \/ StTimeout \/ StWaitQuit \/ StDrain
             \/ DiscFlag("st") \/ DiscQuit("st")
             \/ IhInternal \/ ShInternal \/ QhInternal \/ OhInternal \/ PhInternal \/ AppInternal
 
 Observable ==
-  \/ RmFeed \/ RmClose
+  \/ RmFeed \/ RmClose \/ SbWrite
   \/ NgReadVer \/ NgReadLoop \/ IhRead
   \/ NgWriteOk("wver", "version", AfterWver)
   \/ (nego >= AddrV2PV /\ NgWriteOk("wsa", "sendaddrv2", "wva"))
@@ -789,6 +814,10 @@ RefusedNeverConnects == Refused => (~started /\ ~verAck /\ negRes # "ok")
 BadTrafficEndsReading ==
   started /\ ~Tolerant =>
      \A j \in (cur["ng"] + 1)..(rdn - 1) : scn.script[j].k \notin {"malformed", "wrongmagic"}
+
+\* a nonce of ours is recorded before anybody can see it on the wire, so a
+\* self connection is recognised under every interleaving
+NonceRecordedBeforeWire == (scn.sib /\ SibOnWire) => SelfKnown
 
 \* queue order is wire order; nothing is written twice
 IsSubSeq(a, b) ==          \* a is a subsequence of b (both duplicate free)
